@@ -31,10 +31,13 @@ EnvsOf(ds, i, dom, V) ==   \* ds: sequence of patterns, each ranges independentl
   IF i > Len(ds) THEN {V} ELSE UNION {EnvsOf(ds, i+1, dom, BindV(ds[i], x, V)) : x \in dom}
 DeclEnvs(d, dom, V) == IF d.id = "ENUMDECL" THEN EnvsOf(d.ch, 1, dom, V) ELSE EnvsOf(<<d>>, 1, dom, V)
 
+\* TLC keeps [x \in S |-> e] as a lambda and re-evaluates e at every application; merging with the empty function makes it a table
+Force(f) == f @@ <<>>
 RECURSIVE Ev(_, _, _, _, _)
 \* K = TRUE: kleene connectives and quantifiers; K = FALSE: strict
 Ev(e, I, FD, V, K) ==
-  LET R(i) == Ev(e.ch[i], I, FD, V, K)
+  LET RS == Force([i \in 1..Len(e.ch) |-> Ev(e.ch[i], I, FD, V, K)])     \* evaluated once, on first use (not touched for binders)
+      R(i) == RS[i]
       EV(x, VV) == Ev(x, I, FD, VV, K)
       N == Len(e.ch)
       AnyErr == \E i \in 1..N : ~R(i).ok
@@ -94,7 +97,7 @@ Ev(e, I, FD, V, K) ==
     [] K /\ e.id = "IMPLICATION" /\ ((R(1).ok /\ ~R(1).v) \/ (R(2).ok /\ R(2).v)) -> Ok(TRUE)
     [] AnyErr -> FirstErr
     [] e.id = "CALL" ->
-         Ev(FD[e.s].body, I, FD, [x \in {FD[e.s].args[i] : i \in 1..N} |-> v(CHOOSE i \in 1..N : FD[e.s].args[i] = x)], K)
+         Ev(FD[e.s].body, I, FD, Force([x \in {FD[e.s].args[i] : i \in 1..N} |-> v(CHOOSE i \in 1..N : FD[e.s].args[i] = x)]), K)
     [] e.id = "FILTER" ->
          LET arg == v(N) IN
          IF Len(e.ix) = N - 1
